@@ -379,7 +379,7 @@ func c15Child(args []string) int {
 				chans = append(chans, ch)
 				batches = append(batches, b)
 			}
-			ctx, cancel := context.WithTimeout(context.Background(), 60*time.Second)
+			ctx, cancel := context.WithTimeout(context.Background(), core.Patience)
 			e.Flush(ctx)
 			cancel()
 			for k, ch := range chans {
@@ -390,7 +390,7 @@ func c15Child(args []string) int {
 					if err == nil {
 						acked++
 					}
-				case <-time.After(30 * time.Second):
+				case <-time.After(core.Patience):
 					hist.Err = "no answer 30 s after Flush returned"
 					return finish(0)
 				}
@@ -401,7 +401,7 @@ func c15Child(args []string) int {
 			curOp = "idle"
 		default:
 			curOp = "merge"
-			ctx, cancel := context.WithTimeout(context.Background(), 60*time.Second)
+			ctx, cancel := context.WithTimeout(context.Background(), core.Patience)
 			_, err := e.Merge(ctx)
 			cancel()
 			hist.Steps = append(hist.Steps, fmt.Sprintf("merge(err=%v)", err))
@@ -626,7 +626,7 @@ func runC15(rc *RunCtx, i int) {
 			rc.Violate(i, "recovered-file-unreadable", "", "after the crash a file the scan yields is not fully readable: "+err.Error(), wit(nil))
 			return false
 		}
-		ctx, cancel := context.WithTimeout(context.Background(), 60*time.Second)
+		ctx, cancel := context.WithTimeout(context.Background(), core.Patience)
 		res := world.RunQuery(ctx, fe, &bs.Query{})
 		cancel()
 		if res.QErr != nil || res.Err != nil {
